@@ -1,0 +1,105 @@
+//go:build verif
+
+package cluster
+
+// Peer forwarding (property C19, last sentence): every message handed to an active peer is passed to the
+// transport exactly once and in order. Sequential contracts (the peer's mutex is a no-op here; interleavings of
+// senders with the flush timer are not decided): Send appends at the end of the pending frame, swap hands out the
+// pending frame and leaves a FRESH empty one (a frame that shared its backing array with the one being flushed
+// would let later Sends overwrite messages not yet encoded), processSendQueue encodes and unicasts every chunk
+// Frame.Split yields, once each, in order, and stops only when Split has nothing left.
+
+import (
+	"github.com/emitter-io/emitter/internal/message"
+	vs "github.com/emitter-io/emitter/internal/verifspec"
+	"github.com/weaveworks/mesh"
+)
+
+func pre_Peer(p *Peer) bool {
+	return p != nil && len(p.frame) <= 1<<30 && vs.Forall(0, len(p.frame), func(j int) bool { // type invariant of the queued messages
+		return vs.WellFormed(p.frame[j].ID) && vs.WellFormed(p.frame[j].Channel) && vs.WellFormed(p.frame[j].Payload)
+	})
+}
+
+// whether the peer is still alive is read off the clock: a recorded call here
+//@ assume (*Peer).IsActive iface
+
+//@ verify (*Peer).Send pre=pre_Peer_Send post=post_Peer_Send,post_Peer_Send_keeps props=C19 qinst
+func pre_Peer_Send(p *Peer, m *message.Message) bool { return pre_Peer(p) && m != nil }
+func post_Peer_Send(p *Peer, m *message.Message, old_p Peer, res0 error) bool {
+	a := vs.TraceFind("IsActive")
+	if a < 0 || vs.TraceCount("IsActive") != 1 || res0 != nil {
+		return false
+	}
+	if !vs.TraceRet[bool](a, 0) { // a dead peer: nothing is queued
+		return len(p.frame) == len(old_p.frame)
+	}
+	n := len(old_p.frame)
+	return len(p.frame) == n+1 && specSameMsg(&p.frame[n], m) // an active one: the message goes to the END of the queue
+}
+func post_Peer_Send_keeps(p *Peer, old_p Peer) bool { // and what was queued before stays, in the same order
+	n := len(old_p.frame)
+	return len(p.frame) >= n && vs.Forall(0, n, func(j int) bool { return specSameMsg(&p.frame[j], &old_p.frame[j]) })
+}
+
+// the same message: same id, channel, payload (as slices: nothing is copied) and ttl
+func specSameMsg(a, b *message.Message) bool {
+	return a.TTL == b.TTL && specSameSlice(a.ID, b.ID) && specSameSlice(a.Channel, b.Channel) && specSameSlice(a.Payload, b.Payload)
+}
+func specSameSlice(a, b []byte) bool {
+	return len(a) == len(b) && (len(a) == 0 || vs.OffsetIn(a, b) == 0)
+}
+
+//@ verify (*Peer).swap pre=pre_Peer post=post_Peer_swap props=C19
+func post_Peer_swap(p *Peer, old_p Peer, res0 message.Frame) bool {
+	return len(res0) == len(old_p.frame) && (len(res0) == 0 || vs.OffsetOf(res0, old_p.frame) == 0) && // what was pending
+		len(p.frame) == 0 && vs.DisjointOf(p.frame, res0) // and a fresh, empty frame takes its place
+}
+
+// Frame.Split has its own contract (internal/message); the encoder and the gossip transport are outside
+//@ assume (github.com/emitter-io/emitter/internal/message.Frame).Split iface post=post_Split_assumed
+func post_Split_assumed(res0 message.Frame, res1 message.Frame) bool { return true }
+
+//@ assume (*github.com/emitter-io/emitter/internal/message.Frame).Encode iface
+//@ assume (github.com/weaveworks/mesh.Gossip).GossipUnicast iface
+
+//@ verify (*Peer).processSendQueue pre=pre_Peer_psq post=post_Peer_psq_idle,post_Peer_psq_first,post_Peer_psq_chain props=C19
+//@ loop (*Peer).processSendQueue 0 unroll 3 bounded
+func pre_Peer_psq(p *Peer) bool { return pre_Peer(p) && p.sender != nil }
+
+func specSameFrame(a, b message.Frame) bool {
+	return len(a) == len(b) && (len(a) == 0 || vs.OffsetOf(a, b) == 0)
+}
+
+// nothing pending: nothing happens
+func post_Peer_psq_idle(p *Peer, old_p Peer) bool {
+	return len(old_p.frame) != 0 || vs.TraceLen() == 0
+}
+
+// otherwise the frame that was pending is what gets split first ...
+func post_Peer_psq_first(p *Peer, old_p Peer) bool {
+	if len(old_p.frame) == 0 {
+		return true
+	}
+	s := vs.TraceFind("Frame).Split")
+	return s >= 0 && specSameFrame(vs.TraceArg[message.Frame](s, 0), old_p.frame) && vs.TraceArg[int](s, 1) == maxByteFrameSize
+}
+
+// ... every non-empty head is encoded and then unicast to this peer, once, before the tail is split in turn; and
+// the walk ends exactly when a split returns an empty head (explored for up to three chunks: stated bounded)
+func post_Peer_psq_chain(p *Peer, old_p Peer) bool {
+	if len(old_p.frame) == 0 {
+		return true
+	}
+	n := vs.TraceCount("Frame).Split")
+	return n >= 1 && vs.TraceCount("Frame).Encode") == n-1 && vs.TraceCount("GossipUnicast") == n-1 &&
+		len(vs.TraceRet[message.Frame](vs.TraceFindNth("Frame).Split", n-1), 0)) == 0 &&
+		vs.Forall(0, n-1, func(k int) bool {
+			s, e, g, s2 := vs.TraceFindNth("Frame).Split", k), vs.TraceFindNth("Frame).Encode", k), vs.TraceFindNth("GossipUnicast", k), vs.TraceFindNth("Frame).Split", k+1)
+			head, tail := vs.TraceRet[message.Frame](s, 0), vs.TraceRet[message.Frame](s, 1)
+			return s < e && e < g && g < s2 && len(head) > 0 &&
+				specSameFrame(*vs.TraceArg[*message.Frame](e, 0), head) &&
+				vs.TraceArg[mesh.PeerName](g, 1) == p.name && vs.SameBytes(vs.TraceArg[[]byte](g, 2), vs.TraceRet[[]byte](e, 0)) &&
+				specSameFrame(vs.TraceArg[message.Frame](s2, 0), tail) && vs.TraceArg[int](s2, 1) == maxByteFrameSize
+		})
+}
